@@ -33,6 +33,8 @@ fn run_line(line: &str) -> String {
         "H" => h263_cases::header(&rest),
         "P" => h263_cases::history(&rest, false),
         "PX" => h263_cases::history(&rest, true),
+        "PP" => h263_cases::pipeline(&rest),
+        "S" => h263_cases::schedule(&rest),
         _ => format!("bad-op {}", kind),
     }
 }
